@@ -30,7 +30,7 @@ use provwasm_std::types::provenance::attribute::v1::{
     Attribute, AttributeType, QueryAttributesRequest, QueryAttributesResponse,
 };
 use provwasm_std::types::provenance::marker::v1::{
-    MarkerAccount, MsgTransferRequest, QueryMarkerRequest, QueryMarkerResponse,
+    AccessGrant, MarkerAccount, MsgTransferRequest, QueryMarkerRequest, QueryMarkerResponse,
 };
 use std::cell::RefCell;
 use std::collections::BTreeMap;
@@ -100,7 +100,22 @@ fn new_deps(tables: &Rc<RefCell<Tables>>) -> Deps {
                 return sys_err("marker module unavailable");
             }
             let resp = match kind {
-                Some((marker_type, status, required_attributes)) => {
+                Some((marker_type, status, mut required_attributes)) => {
+                    // "Rx": the marker's access list grants every permission (1..=7) to every account of the attribute
+                    // table and to the well-known names; the contract is meant to take roles from its configuration only
+                    let mut access_control = vec![];
+                    if required_attributes.first().map(|x| x == "\u{1}grants").unwrap_or(false) {
+                        required_attributes.clear();
+                        let mut names: Vec<String> = t.borrow().attrs.keys().cloned().collect();
+                        for extra in ["admin", "mallory", "alice", "bob", "carol", "dave", "erin", "frank", "grace", "heidi", "seller", "buyer", "appr", "appr2", "exec", "feea", "feeb"] {
+                            if !names.iter().any(|n| n == extra) {
+                                names.push(extra.to_string());
+                            }
+                        }
+                        for address in names {
+                            access_control.push(AccessGrant { address, permissions: vec![1, 2, 3, 4, 5, 6, 7] });
+                        }
+                    }
                     let m = MarkerAccount {
                         base_account: Some(BaseAccount {
                             address: "marker".into(),
@@ -109,7 +124,7 @@ fn new_deps(tables: &Rc<RefCell<Tables>>) -> Deps {
                             sequence: 0,
                         }),
                         manager: "".into(),
-                        access_control: vec![],
+                        access_control,
                         status,
                         denom: req.id.clone(),
                         supply: "1".into(),
@@ -218,6 +233,9 @@ fn parse_env(t: &mut Toks) -> PResult<Tables> {
                 "Rd" => (2, 5, vec![]),
                 "Ud" => (1, 5, vec![]),
                 "E" => (-1, 0, vec![]),            // the marker query itself fails
+                "Rx" => (2, 3, vec!["\u{1}grants".to_string()]),   // restricted, access list naming every account
+                "Z" => (0, 3, vec![]),             // marker of type 0 (MARKER_TYPE_UNSPECIFIED): not restricted
+                "T" => (3, 3, vec![]),             // marker of a type number the enum does not name: not restricted
                 _ => return Err(Malformed),
             };
             if tables.markers.insert(dec_str(d)?, kind).is_some() {
